@@ -1,7 +1,16 @@
 /-
   C12 — Declared shape/dtype/chunks are truthful; written blocks match their chunk shape.
 
-  Property theorems only (helper lemmas live in Proofs/ShapeCalc.lean).
+  Property theorems only (model: Model/ShapeCalc.lean, helper lemmas: Proofs/ShapeCalc.lean).
+  All statements are for every rank, every axis length and every chunk size.  `extents d coords = some s`
+  says "coords is a block of the declared grid `d` and the chunk region there has shape `s`"; the
+  conclusion `…Block … coords = some s` says the block the operation's function returns for that
+  coordinate has exactly this shape (nothing is broadcast or truncated by the write).
+
+  Two clauses are false for the unchanged code and are kept as `def … : Prop` with a `_partial` theorem
+  under an explicit extra hypothesis and a `_fails` theorem from a concrete witness:
+  stack (operands chunked differently) and qr (a row chunk shorter than the number of columns).
+  dtype rules are not part of the Lean model (compared differentially by the harness).
 -/
 import CubedModel.Proofs.ShapeCalc
 
@@ -9,8 +18,10 @@ namespace Cubed.C12
 
 open Cubed Cubed.ShapeCalc
 
+/-! ### grids, regions, declared chunks -/
+
 /-- Block `i` of a regular grid with chunk size `c` over an axis of length `n` has length
-`min c (n - i*c)`; the lengths add up to `n`, there are `⌈n/c⌉` of them and none exceeds `c`. -/
+`min c (n - i*c)`; the lengths add up to `n`, there are `⌈n/c⌉` of them, all positive and `≤ c`. -/
 theorem C12_regular_grid_block_len (c n i : Nat) (hc : 0 < c) (hn : 0 < n) (hi : i < ceilDiv n c) :
     (regGrid c n)[i]? = some (min c (n - i * c))
       ∧ (regGrid c n).sum = n ∧ (regGrid c n).length = ceilDiv n c ∧ ∀ x ∈ regGrid c n, 0 < x ∧ x ≤ c :=
@@ -18,5 +29,260 @@ theorem C12_regular_grid_block_len (c n i : Nat) (hc : 0 < c) (hn : 0 < n) (hi :
    fun x hx => ⟨regGrid_pos c n x hc hn hx, regGrid_le c n x hc hx⟩⟩
 
 example : regGrid 4 9 = [4, 4, 1] ∧ (2 : Nat) < ceilDiv 9 4 := by decide
+
+/-- The write region `get_item(chunks, coords)` (start/stop pairs from cumulative sums) has exactly the
+extents of the chunk at `coords`. -/
+theorem C12_region_is_chunk (cs : Chunks) (coords : List Nat) : regionExtents cs coords = extents cs coords :=
+  regionExtents_eq_extents cs coords
+
+example : regionExtents [[4, 4, 1], [3]] [2, 0] = some [1, 3] := by decide
+
+/-- Declared chunks are truthful: when every axis an op asks for is a regular grid, the chunks that
+`Array.chunks` reports after the zarr round trip (`normalize_chunks(to_chunksize(d), shape)`), which is also
+the grid the write regions are cut from, are exactly the chunks the op computed. -/
+theorem C12_declared_roundtrip (d : Chunks) (h : ∀ l ∈ d, Canon l) : arrChunks d = some d :=
+  arrChunks_of_canon d h
+
+example : arrChunks [[4, 4, 1], [0], [1, 1, 1]] = some [[4, 4, 1], [0], [1, 1, 1]] := by decide
+example : Canon [4, 4, 1] := ⟨4, 9, by decide, by decide⟩
+
+/-- the chunk lists the modelled ops produce are regular grids -/
+theorem C12_canon_closed (c n k : Nat) (hc : 0 < c) (hk : 0 < k) :
+    Canon (regGrid c n) ∧ Canon (List.replicate k c) :=
+  ⟨canon_regGrid c n hc, canon_replicate k c hc hk⟩
+
+/-! ### blockwise: elementwise with broadcasting, permute_dims -/
+
+/-- `blockwise` with an index-faithful block function (elementwise with NumPy broadcasting, transposition),
+no `adjust_chunks` / `new_axes`: if along every out index the operands' chunkings are the common one or `(1,)`
+(what `unify_chunks` establishes), the block returned for `coords` has the extents of the declared chunk. -/
+theorem C12_block_shape_ok_elementwise (b : Bw) (hadj : b.adjust = []) (hnew : b.newAxes = [])
+    (hu : ∀ i ∈ b.outInd, ∀ u, labelDim b i = some u → ∀ ch ∈ labelChunks b.args i, ch = u ∨ ch = [1])
+    (d : Chunks) (hd : bwChunkss b = some d) (coords s : List Nat) (he : extents d coords = some s) :
+    bwBlockFaithful b coords = some s :=
+  bwBlockFaithful_ok b hadj hnew hu d hd coords s he
+
+/-- add of a (9,3) array chunked (4,3) and a (1,3) array: declared ((4,4,1),(3,)), block (2,0) is 1×3. -/
+def exAdd : Bw := elemwiseBw [[[4, 4, 1], [3]], [[1], [3]]]
+example : bwChunkss exAdd = some [[4, 4, 1], [3]] ∧ bwBlockFaithful exAdd [2, 0] = some [1, 3] := by decide
+example : ∀ i ∈ exAdd.outInd, ∀ u, labelDim exAdd i = some u → ∀ ch ∈ labelChunks exAdd.args i, ch = u ∨ ch = [1] := by
+  decide
+
+/-- reference: NumPy broadcasting of the operands' lengths along an index gives the declared length. -/
+theorem C12_declared_eq_reference_elementwise (L : List (List Nat)) (u : List Nat)
+    (hL : ∀ ch ∈ L, ch = u ∨ ch = [1]) (hu : u ∈ L) : bcastAll (L.map List.sum) = some u.sum :=
+  label_shape_reference L u hL hu
+
+example : bcastAll ([[4, 4, 1], [1]].map List.sum) = some 9 := by decide
+
+/-- `permute_dims(x, axes)`: the transposed block has the extents of the declared (transposed) chunk. -/
+theorem C12_block_shape_ok_permute_dims (x : Chunks) (axes : List Nat) (d : Chunks)
+    (hd : bwChunkss (permuteBw x axes) = some d) (coords s : List Nat) (he : extents d coords = some s) :
+    bwBlockFaithful (permuteBw x axes) coords = some s :=
+  permuteBlock_ok x axes d hd coords s he
+
+example : bwChunkss (permuteBw [[4, 4, 1], [3]] [1, 0]) = some [[3], [4, 4, 1]]
+    ∧ bwBlockFaithful (permuteBw [[4, 4, 1], [3]] [1, 0]) [0, 2] = some [3, 1] := by decide
+
+/-! ### map_blocks with chunks / drop_axis / new_axis: squeeze, expand_dims -/
+
+/-- `squeeze(x, axes)` (declared chunks `x.chunks` without `axes`; every squeezed axis has the single chunk
+`(1,)`, which `squeeze` checks): the block read is the one at `coords` with 0 inserted on the squeezed axes, and
+`nxp.squeeze` of it has the extents of the declared chunk. -/
+theorem C12_block_shape_ok_squeeze (axes : List Nat) (x : Chunks)
+    (hone : ∀ j c, x[j]? = some c → axes.contains j = true → c = [1])
+    (coords s : List Nat) (he : extents (removeAxes axes x) coords = some s) :
+    ∃ t, extents x (unsqueezeCoords axes 0 x coords) = some t ∧ squeezeShape axes t = some s := by
+  obtain ⟨t, ht, hrem, hones⟩ := squeeze_core axes x 0 (by simpa using hone) coords s he
+  refine ⟨t, ht, ?_⟩
+  rw [squeezeShape_of_ones axes t (by simpa using hones)]
+  exact congrArg some hrem
+
+example : extents (removeAxes [1] [[4, 4, 1], [1], [3]]) [2, 0] = some [1, 3]
+    ∧ extents [[4, 4, 1], [1], [3]] (unsqueezeCoords [1] 0 [[4, 4, 1], [1], [3]] [2, 0]) = some [1, 1, 3]
+    ∧ squeezeShape [1] [1, 1, 3] = some [1, 3] := by decide
+
+/-- reference: the declared shape of `squeeze` is the input shape without the squeezed axes. -/
+theorem C12_declared_eq_reference_squeeze (axes : List Nat) (x : Chunks) :
+    shapeOf (removeAxes axes x) = reducedShape (shapeOf x) axes false := by
+  rw [shapeOf_removeAxes]; rfl
+
+/-- `expand_dims(x, axis)` (declared chunks: `(1,)` inserted at `axis`): the block of `x` at the other
+coordinates with a length-1 axis inserted has the extents of the declared chunk. -/
+theorem C12_block_shape_ok_expand_dims (x : Chunks) (axis : Nat) (hax : axis ≤ x.length)
+    (coords s : List Nat) (he : extents (expandAxes [axis] [1] x) coords = some s) :
+    (extents x (coords.eraseIdx axis)).map (expandAxes [axis] 1) = some s := by
+  rw [expandAxes_single axis [1] x hax] at he
+  obtain ⟨j, _, _, hm⟩ := stack_core 1 x axis hax coords s he
+  cases ht : extents x (coords.eraseIdx axis) with
+  | none => rw [ht] at hm; simp at hm
+  | some t =>
+    rw [ht] at hm
+    have hlen := (extents_length x _ t ht).1
+    simp only [Option.map_some] at hm ⊢
+    rw [expandAxes_single axis 1 t (by omega)]
+    exact hm
+
+example : extents (expandAxes [1] [1] [[4, 4, 1], [3]]) [2, 0, 0] = some [1, 1, 3] := by decide
+
+/-! ### partial_reduce, tree levels, scan level -/
+
+/-- `partial_reduce` with a keepdims reduction and default `combine_sizes`: reduced axes get
+`(1,) * ⌈nb/split⌉` and every block has length 1 there; other axes keep their chunk. -/
+theorem C12_block_shape_ok_partial_reduce (p : PartialReduce) (hk : p.kind = .keepdims) (hc : p.combine = [])
+    (hs : ∀ i k, p.split.lookup i = some k → 0 < k)
+    (coords s : List Nat) (he : extents (prChunkss p) coords = some s) : prBlock p coords = some s := by
+  apply prBlock_ok p _ coords s he
+  intro j c k b _ hk' _
+  refine ⟨hs j k hk', ?_⟩
+  simp [prAxisLen, hk, hc]
+
+example : prChunkss { x := [[4, 4, 1], [3, 3, 3, 1]], split := [(1, 2)], combine := [] } = [[4, 4, 1], [1, 1]]
+    ∧ prBlock { x := [[4, 4, 1], [3, 3, 3, 1]], split := [(1, 2)], combine := [] } [2, 1] = some [1, 1] := by decide
+
+/-- the scan level (`reduce = identity`, `combine_sizes = split`): every group must be full, which holds when
+the split size divides the number of blocks (this is what the `assert` in `scan` enforces while building). -/
+theorem C12_block_shape_ok_scan_level (p : PartialReduce) (hk : p.kind = .concat) (hc : p.combine = p.split)
+    (hs : ∀ j c k, p.x[j]? = some c → p.split.lookup j = some k → 0 < k ∧ k ∣ c.length)
+    (coords s : List Nat) (he : extents (prChunkss p) coords = some s) : prBlock p coords = some s := by
+  apply prBlock_ok p _ coords s he
+  intro j c k b hj hk' hb
+  have ⟨hpos, hdvd⟩ := hs j c k hj hk'
+  refine ⟨hpos, ?_⟩
+  simp only [prAxisLen, hk, hc, hk', Option.getD_some]
+  exact concat_group_full k c.length b hpos hdvd hb
+
+example : prBlock { x := [[1, 1, 1, 1]], split := [(0, 2)], combine := [(0, 2)], kind := .concat } [1] = some [2] := by decide
+/-- … and a group that is not full would be written into a longer region (7 blocks, split 5) -/
+example : extents (prChunkss { x := [[1, 1, 1, 1, 1, 1, 1]], split := [(0, 5)], combine := [(0, 5)], kind := .concat }) [1] = some [5]
+    ∧ prBlock { x := [[1, 1, 1, 1, 1, 1, 1]], split := [(0, 5)], combine := [(0, 5)], kind := .concat } [1] = some [2] := by decide
+
+/-- `tree_reduce`: after `d` rounds with `k^d ≥ nb` a reduced axis has one block (so its declared length
+is 1, NumPy's keepdims length). -/
+theorem C12_tree_reduce_reaches_one (k d nb : Nat) (hk : 0 < k) (hnb : 0 < nb) (h : nb ≤ k ^ d) :
+    treeLevels k d nb = 1 ∧ (List.replicate (treeLevels k d nb) 1).sum = 1 := by
+  rw [treeLevels_one k d nb hk hnb h]; exact ⟨rfl, rfl⟩
+
+example : treeLevels 4 2 13 = 1 := by decide
+
+/-! ### concat, stack, unstack, repeat -/
+
+/-- `concat`: the block function allocates the declared chunk (`target_chunks[block_id]`); the declared
+length along the axis is the sum of the operands' lengths and is chunked as a regular grid. -/
+theorem C12_block_shape_ok_concat (c : Concat) (d : Chunks) (hd : concatChunkss c = some d)
+    (coords : List Nat) : concatBlock c coords = extents d coords := by
+  simp [concatBlock, hd]
+
+theorem C12_declared_eq_reference_concat (cmax total : Nat) (hc : 0 < cmax) :
+    (regGrid cmax total).sum = total ∧ Canon (regGrid cmax total) :=
+  ⟨regGrid_sum cmax total, canon_regGrid cmax total hc⟩
+
+example : concatChunkss { args := [[[4, 4, 1], [3]], [[2], [3]]], axis := 0 } = some [[4, 4, 3], [3]] := by decide
+
+/-- clause "every block written by `stack` matches its region" -/
+def StackBlockShapeOK (args : List Chunks) (axis : Nat) : Prop :=
+  ∀ d, stackChunkss args axis = some d → ∀ coords s, extents d coords = some s → stackBlock args axis coords = some s
+
+/-- … holds when all operands have the same chunks … -/
+theorem C12_stack_block_shape_partial (args : List Chunks) (axis : Nat) (a : Chunks) (hargs : ∀ x ∈ args, x = a) :
+    StackBlockShapeOK args axis :=
+  fun d hd coords s he => stackBlock_ok args axis a hargs d hd coords s he
+
+example : StackBlockShapeOK [[[2, 1]], [[2, 1]]] 0 := C12_stack_block_shape_partial _ 0 [[2, 1]] (by decide)
+example : stackChunkss [[[2, 1]], [[2, 1]]] 0 = some [[1, 1], [2, 1]] := by decide
+
+/-- … and fails in general (the code takes the chunks of the first operand only): stacking an array chunked
+`(2,)` and one chunked `(1,1)` writes a `1×1` block into a `1×2` region. -/
+theorem C12_stack_full_fails : ¬ ∀ args axis, StackBlockShapeOK args axis := by
+  intro h
+  have := h [[[2]], [[1, 1]]] 0 [[1, 1], [2]] (by decide) [1, 0] [1, 2] (by decide)
+  revert this; decide
+
+theorem C12_declared_eq_reference_stack (k : Nat) : (List.replicate k 1).sum = k := sum_replicate_one k
+
+/-- `unstack`: every yielded slice has the extents of the declared chunk (the input chunks without `axis`). -/
+theorem C12_block_shape_ok_unstack (x : Chunks) (axis : Nat) (d : Chunks) (hd : unstackChunkss x axis = some d)
+    (coords : List Nat) : unstackBlock x axis coords = extents d coords := by
+  unfold unstackChunkss at hd
+  unfold unstackBlock
+  split at hd
+  · next h => rw [if_pos h]; simp at hd; rw [hd]
+  · simp at hd
+
+/-- `repeat(x, r, axis)`: the slice `[bi*c, (bi+1)*c)` of the `r`-fold repeated input block `coords[axis] // r`
+(`bi = coords[axis] % r`) has exactly the length of chunk `coords[axis]` of the regular grid with the input's
+chunk size over `n*r` — including the clipped last chunks. -/
+theorem C12_block_shape_ok_repeat (x : Chunks) (r axis : Nat) (hr : 0 < r) (hcan : ∀ c ∈ x, Canon c)
+    (d : Chunks) (hd : repeatChunkss x r axis = some d) (coords s : List Nat) (he : extents d coords = some s) :
+    repeatBlock x r axis coords = some s :=
+  repeatBlock_ok x r axis hr hcan d hd coords s he
+
+example : repeatChunkss [[4, 4, 1]] 3 0 = some [[4, 4, 4, 4, 4, 4, 3]]
+    ∧ repeatBlock [[4, 4, 1]] 3 0 [6] = some [3] ∧ repeatBlock [[4, 4, 1]] 3 0 [5] = some [4] := by decide
+
+theorem C12_declared_eq_reference_repeat (c n r : Nat) : (regGrid c (n * r)).sum = n * r := regGrid_sum c (n * r)
+
+/-! ### copy regions (rechunk, merge_chunks) and index -/
+
+/-- `_rechunk` / `merge_chunks`: the block assembled for the selection `get_item(copy chunks, coords)` has the
+extents of that copy chunk. -/
+theorem C12_block_shape_ok_copy_regions (x : Chunks) (copy : List Nat) (d : Chunks) (hd : copyChunkss x copy = some d)
+    (coords s : List Nat) (he : extents d coords = some s) : copyBlock x copy coords = some s :=
+  copyBlock_ok x copy d hd coords s he
+
+example : copyChunkss [[4, 4, 1], [3]] [3, 2] = some [[3, 3, 3], [2, 1]]
+    ∧ copyBlock [[4, 4, 1], [3]] [3, 2] [2, 1] = some [3, 1] := by decide
+
+/-- `index` with integers, integer arrays and slices of any positive step (negative steps are converted to
+positive ones followed by `flip`): the block zarr's indexer assembles for out block `coords` has the extents
+of the declared chunk.  `SelOK`: the slice's step is positive and its stop is within the axis (ndindex's
+canonical form). -/
+theorem C12_block_shape_ok_index (x : Chunks) (sels : List Sel) (hok : ∀ p ∈ x.zip sels, SelOK p.1 p.2)
+    (d : Chunks) (hd : indexChunkss x sels = some d) (coords s : List Nat) (he : extents d coords = some s) :
+    indexBlock x sels coords = some s :=
+  indexBlock_ok x sels hok d hd coords s he
+
+example : indexChunkss [[4, 4, 4, 1], [3]] [.slice 1 12 3 3, .int] = some [[1, 1, 1, 1]]
+    ∧ indexBlock [[4, 4, 4, 1], [3]] [.slice 1 12 3 3, .int] [3] = some [1]
+    ∧ indexChunkss [[4, 4, 4, 1]] [.slice 1 12 2 2] = some [[2, 2, 2]]
+    ∧ indexBlock [[4, 4, 4, 1]] [.slice 1 12 2 2] [2] = some [2] := by decide
+
+/-- reference: the declared length `⌈(stop-start)/step⌉` of a sliced axis counts the selected positions. -/
+theorem C12_declared_eq_reference_slice (start stop step k : Nat) (hstep : 0 < step) :
+    k < sliceLen start stop step ↔ start + k * step < stop :=
+  sliceLen_spec start stop step k hstep
+
+/-! ### tall-and-skinny QR -/
+
+/-- clause "every block written by the first step of `qr` matches its region" -/
+def QrBlockShapeOK (a : Chunks) : Prop :=
+  ∀ q r, qr1Chunkss a = some (q, r) → ∀ coords sq sr,
+    extents q coords = some sq → extents r coords = some sr → qr1Block a coords = some (sq, sr)
+
+/-- … holds when every row chunk has at least as many rows as there are columns … -/
+theorem C12_qr_block_shape_partial (rows : List Nat) (n : Nat) (hrows : ∀ m ∈ rows, n ≤ m) :
+    QrBlockShapeOK [rows, [n]] := by
+  intro q r hqr coords sq sr hq hr
+  simp only [qr1Chunkss, maxOf_singleton, Option.some.injEq, Prod.mk.injEq] at hqr
+  obtain ⟨rfl, rfl⟩ := hqr
+  exact qr1Block_ok rows n hrows coords sq sr hq hr
+
+example : QrBlockShapeOK [[4, 4], [4]] := C12_qr_block_shape_partial [4, 4] 4 (by decide)
+
+/-- … and fails in general: 9×4 with 4-row chunks — the last R-block is 1×4 but declared 4×4, the last Q-block
+1×1 but declared 1×4 (zarr broadcasts both silently). -/
+theorem C12_qr_full_fails : ¬ ∀ a, QrBlockShapeOK a := by
+  intro h
+  have := h [[4, 4, 1], [4]] [[4, 4, 1], [4]] [[4, 4, 4], [4]] (by decide) [2, 0] [1, 4] [4, 4] (by decide) (by decide)
+  revert this; decide
+
+/-- second and third step: with at least as many rows as columns in the stacked R the blocks are as declared;
+the final shapes `(m, n)`, `(n, n)` are NumPy's reduced-mode shapes for `m ≥ n`. -/
+theorem C12_qr_later_steps (r n m : Nat) (h : n ≤ r) :
+    qr2Block r n = ([r, n], [n, n]) ∧ (qr2Chunkss r n).1 = [[r], [n]] ∧ (qr2Chunkss r n).2 = [[n], [n]]
+      ∧ (n ≤ m → qrShapes m n = ([m, n], [n, n])) := by
+  refine ⟨by simp [qr2Block, qrShapes, Nat.min_eq_right h], rfl, rfl, fun hm => by simp [qrShapes, Nat.min_eq_right hm]⟩
+
+example : qr3Block [[4, 4, 1], [4]] 12 4 [2, 0] = some [1, 4] := by decide
 
 end Cubed.C12
